@@ -192,23 +192,36 @@ def run(ctx):
     flush = None
     for m in flusher_side:
         for n in ast.walk(m.node):
-            if isinstance(n, ast.Assign) and any(self_attr(t) in shared for t in n.targets) and isinstance(n.value, (ast.List, ast.Call)):
+            if isinstance(n, ast.Assign) and any(self_attr(t) in shared for t in n.targets):
                 flush = m
     if flush is None:
         raise AnalysisError('anchor-lost role=buffer swap')
     swap_ok = False
+    swap_partial = None
     swapped_local = None
     buf = None
     for w in [n for m_ in sorted(flusher_side, key=lambda x: x.name) for n in ast.walk(m_.node)
               if isinstance(n, ast.With) and self_attr(n.items[0].context_expr) in lock_fields]:
         reads = [n for n in w.body if isinstance(n, ast.Assign) and self_attr(n.value) in shared and isinstance(n.targets[0], ast.Name)]
         installs = [n for n in w.body if isinstance(n, ast.Assign) and any(self_attr(t) in shared for t in n.targets)]
+        part = [n for n in w.body if isinstance(n, ast.Assign) and isinstance(n.value, ast.Subscript) and self_attr(n.value.value) in shared]
+        if part:
+            swap_partial = part[0]
         if reads and installs and self_attr(reads[0].value) == self_attr(installs[0].targets[0]) and reads[0].lineno < installs[0].lineno:
+            empty = isinstance(installs[0].value, (ast.List, ast.Tuple)) and not installs[0].value.elts or \
+                (isinstance(installs[0].value, ast.Call) and not installs[0].value.args and not installs[0].value.keywords)
+            if not empty:
+                swap_partial = installs[0]
+                continue
             swap_ok = True
             swapped_local = reads[0].targets[0].id
             buf = self_attr(reads[0].value)
     ca.instance('flusher swaps the buffer (read old, install new) inside one lock region', flush.qualname, swap_ok)
-    if not swap_ok:
+    if not swap_ok and swap_partial is not None:
+        res.add(Finding('C12', 'C12.a', 'R-LOCKSET', flush.file, flush.qualname, swap_partial.lineno, norm(swap_partial),
+                        'a flush takes only part of the pending operations (`%s`): the single final flush at close leaves the rest unapplied' % norm(swap_partial)))
+        swapped_local = swap_partial.targets[0].id if isinstance(swap_partial.targets[0], ast.Name) else swapped_local
+    elif not swap_ok:
         res.add(Finding('C12', 'C12.a', 'R-LOCKSET', flush.file, flush.qualname, flush.node.lineno, 'buffer swap',
                         'the flusher does not take the old list and install the new one within a single lock region: an operation appended in '
                         'between is lost or applied twice'))
@@ -227,19 +240,25 @@ def run(ctx):
     producers = []
     for c in (cas, rec):
         for m in c.methods.values():
-            lam = [n for n in ast.walk(m.node) if isinstance(n, ast.Lambda)]
-            if lam and any('wrapped' in norm(l) for l in lam):
+            if 'async_operation' in m.name:
+                continue
+            if any(isinstance(n, ast.Call) and self_attr(n.func) and 'async_operation' in n.func.attr for n in ast.walk(m.node)):
                 producers.append((c, m))
     if len(producers) < 3:
         raise AnalysisError('anchor-lost role=producer methods (found %s)' % [m.qualname for c, m in producers])
+
+    def deferred(a):
+        # a deferred operation: lambda, or functools.partial(f, ...)
+        return isinstance(a, ast.Lambda) or (isinstance(a, ast.Call) and norm(a.func).split('.')[-1] == 'partial')
     for c, m in producers:
         enq = [n for n in ast.walk(m.node) if isinstance(n, ast.Call) and self_attr(n.func) and 'async_operation' in n.func.attr]
-        lam = [a for n in enq for a in n.args if isinstance(a, ast.Lambda)]
+        lam = [a for n in enq for a in n.args if deferred(a)]
         ok = len(enq) == 1 and len(lam) == 1
         why = ''
         if ok:
             l = lam[0]
-            free = {x.id for x in ast.walk(l.body) if isinstance(x, ast.Name)} - {a.arg for a in l.args.args}
+            bound = {a.arg for a in l.args.args} if isinstance(l, ast.Lambda) else set()
+            free = {x.id for x in ast.walk(l.body if isinstance(l, ast.Lambda) else l) if isinstance(x, ast.Name)} - bound - {'partial', 'functools'}
             allowed = set(m.all_param_names)
             ok = free <= allowed
             why = 'closure reads %s' % sorted(free)
@@ -274,8 +293,11 @@ def run(ctx):
             any(h.type is None or norm(h.type) in ('Exception', 'BaseException') for h in tries[0].handlers)
         requeue = any(isinstance(x, ast.Name) and x.id == tv for h in (tries[0].handlers if tries else []) for s_ in h.body for x in ast.walk(s_)
                       if not isinstance(s_, ast.Expr) or not norm(s_).startswith('_logger'))
-        okd = contained and not requeue
-        why = 'calls per element=%d, per-element try=%d, handler re-queues element=%s' % (len(calls), len(tries), requeue)
+        deref = [x for h in (tries[0].handlers if tries else []) for x in ast.walk(h)
+                 if isinstance(x, ast.Attribute) and isinstance(x.value, ast.Name) and x.value.id == tv]
+        okd = contained and not requeue and not deref
+        why = 'calls per element=%d, per-element try=%d, handler re-queues element=%s, handler dereferences the failed operation=%s' % (
+            len(calls), len(tries), requeue, [norm(x) for x in deref])
     cd.instance('flusher: plain `for` over the swapped-out list, each element called once inside its own try', flush.qualname, okd, detail=why)
     if not okd:
         res.add(Finding('C12', 'C12.d', 'R-ORDER', flush.file, flush.qualname, flush.node.lineno, 'flush loop',
